@@ -754,6 +754,7 @@ impl<R: Read> Deserializer<R> {
 //@@ spec
     requires bounded(old(self).reader),
     ensures
+        final(self).non_native_type == old(self).non_native_type,
         final(self).reader.wf(),
         (match r {
             Some(Ok(s)) => old(self).reader.unread().len() >= 1 && old(self).reader.unread().len() >= 1 + old(self).reader.unread()[0]
@@ -777,6 +778,7 @@ impl<R: Read> Deserializer<R> {
 //@@ spec
     requires bounded(old(self).reader),
     ensures
+        final(self).non_native_type == old(self).non_native_type,
         final(self).reader.wf(),
         (match r {
             Some(Ok(s)) => old(self).reader.unread().len() >= 4 && old(self).reader.unread().len() >= 4 + sp_be32(old(self).reader.unread().subrange(0, 4))
@@ -810,6 +812,7 @@ impl<R: Read> Deserializer<R> {
 //@@ spec
     requires bounded(old(self).reader), old(self).elem_format_code is None,
     ensures
+        final(self).non_native_type == old(self).non_native_type,
         final(self).reader.wf(),
         r is Ok ==> var_decoded(0xa1, 0xb1, old(self).reader.unread()) == Some(utf8(r->Ok_0@))
             && final(self).reader.unread() =~= old(self).reader.unread().skip(var_consumed(0xa1, old(self).reader.unread())),   // [C05.str.decoding] [C03.rt.decoder-premise] str8-utf8 and str32-utf8 are both read by the AMQP layout: constructor, size, exactly that many octets of UTF-8, nothing more consumed
@@ -836,6 +839,7 @@ impl<R: Read> Deserializer<R> {
 //@@ spec
     requires bounded(old(self).reader), old(self).elem_format_code is None,
     ensures
+        final(self).non_native_type == old(self).non_native_type,
         final(self).reader.wf(),
         r is Ok ==> var_decoded(0xa3, 0xb3, old(self).reader.unread()) == Some(utf8(r->Ok_0@))
             && final(self).reader.unread() =~= old(self).reader.unread().skip(var_consumed(0xa3, old(self).reader.unread())),   // [C05.symbol.decoding] [C03.rt.decoder-premise]
@@ -883,6 +887,81 @@ impl<R: Read> Deserializer<R> {
         final(self).non_native_type is None,       // [C03.marker.one-shot] a type marker set by a newtype wrapper (here: LazyValue) is consumed by the value it marks: it does not reach the NEXT value read through the same deserializer (a binary after a LazyValue -- a message footer after a LazyValue body -- was captured raw, constructor and size octets included)
 //@@ end
 }
+impl VisS {
+    #[verifier::external_body]
+    pub fn visit_string(self, v: String) -> (r: Result<VisValue, Error>) ensures r is Ok ==> r->Ok_0.via@ == VisCall::Str(v@) { unimplemented!() }
+}
+/// `self.reader.forward_read_str(len, visitor)`: the contract of Read::forward_read_str checked against both readers (str_forwarded)
+#[verifier::external_body]
+pub fn reader_forward_str<R: Read>(reader: &mut R, len: usize, visitor: VisS) -> (r: Result<VisValue, Error>)
+    requires bounded(*old(reader)),
+    ensures str_forwarded(*old(reader), *final(reader), len, r), final(reader).wf(),
+{ unimplemented!() }
+impl<R: Read> Deserializer<R> {
+//@@ fn file=serde_amqp/src/de.rs impl=`~de::Deserializer<'de>for&mutDeserializer<R>` name=deserialize_string
+//@@ selfmut
+//@@ qmark
+//@@ generics
+//@@ nowhere
+//@@ param visitor : VisS
+//@@ ret Result<VisValue, Error>
+//@@ spec
+    requires bounded(old(self).reader), old(self).elem_format_code is None,
+    ensures
+        old(self).non_native_type is None || old(self).non_native_type->Some_0 is Symbol ==> final(self).non_native_type is None,       // [C03.marker.one-shot] the Symbol marker is consumed by the string it marks
+        old(self).non_native_type is Some && !(old(self).non_native_type->Some_0 is Symbol) ==> final(self).non_native_type == old(self).non_native_type,
+//@@ end
+
+//@@ fn file=serde_amqp/src/de.rs impl=`~de::Deserializer<'de>for&mutDeserializer<R>` name=deserialize_str
+//@@ selfmut
+//@@ qmark
+//@@ generics
+//@@ nowhere
+//@@ param visitor : VisS
+//@@ ret Result<VisValue, Error>
+//@@ subst `|| Error::unexpected_eof("Expecting format code")` => `|| -> (o: Error) { Error::unexpected_eof("Expecting format code") }` rule=R18
+//@@ subst `|| Error::unexpected_eof("Expecting len")` => `|| -> (o: Error) { Error::unexpected_eof("Expecting len") }` rule=R18
+//@@ subst `self.reader.read_const_bytes().map(u32::from_be_bytes)?` => `(match self.reader.read_const_bytes() { Ok(b) => from_be32(b), Err(e) => return Err(e.err_into()) })` rule=R19
+//@@ subst `self.reader.forward_read_str(len, visitor)` => `reader_forward_str(&mut self.reader, len, visitor)` rule=R9
+//@@ spec
+    requires bounded(old(self).reader),
+    ensures
+        old(self).non_native_type is None || old(self).non_native_type->Some_0 is SymbolRef ==> final(self).non_native_type is None,    // [C03.marker.one-shot] the SymbolRef marker is consumed by the text it marks: it does not reach the next value (where a binary used to hit `unreachable!`)
+        r is Ok ==> ({
+            let u = eff_unread(*old(self));
+            &&& (u[0] == 0xa1 || u[0] == 0xa3 || u[0] == 0xb1 || u[0] == 0xb3)
+            &&& r->Ok_0.via@ is Str
+            &&& utf8(r->Ok_0.via@->Str_0) =~= (if u[0] == 0xa1 || u[0] == 0xa3 { u.subrange(2, 2 + u[1] as int) } else { u.subrange(5, 5 + sp_be32(u.subrange(1, 5)) as int) })     // [C05.string.decoding] [C20.reader.forward-exact] str8 / sym8: one length octet; str32 / sym32: four, big-endian; the visitor is shown exactly the announced octets as text
+        }),
+//@@ end
+
+//@@ fn file=serde_amqp/src/de.rs impl=`~de::Deserializer<'de>for&mutDeserializer<R>` name=deserialize_bytes
+//@@ selfmut
+//@@ qmark
+//@@ blockarms
+//@@ generics
+//@@ nowhere
+//@@ orsplit
+//@@ param visitor : VisS
+//@@ ret Result<VisValue, Error>
+//@@ subst `|| Error::unexpected_eof("Expecting format code")` => `|| -> (o: Error) { Error::unexpected_eof("Expecting format code") }` rule=R18
+//@@ subst `|| Error::unexpected_eof("Expecting len")` => `|| -> (o: Error) { Error::unexpected_eof("Expecting len") }` rule=R18
+//@@ subst `self.reader.read_const_bytes().map(u32::from_be_bytes)?` => `(match self.reader.read_const_bytes() { Ok(b) => from_be32(b), Err(e) => return Err(e.err_into()) })` rule=R19
+//@@ subst `self.reader.forward_read_bytes_with_hint(len, visitor)` => `reader_forward_bytes(&mut self.reader, len, visitor)` rule=R9
+//@@ subst `unreachable!()` => `{ marker_cannot_be(); Err(Error::InvalidFormatCode) }` rule=R12
+//@@ spec
+    requires bounded(old(self).reader),
+        !(old(self).non_native_type is Some && old(self).non_native_type->Some_0 is LazyValue),     // ASSUMED internal invariant: the LazyValue marker is set by deserialize_newtype_struct(LAZY_VALUE) only, which hands it straight to deserialize_byte_buf, which consumes it on every path ([C03.marker.one-shot] there); deserialize_newtype_struct itself is not under contract
+    ensures
+        old(self).non_native_type is Some && (old(self).non_native_type->Some_0 is Dec32 || old(self).non_native_type->Some_0 is Dec64 || old(self).non_native_type->Some_0 is Dec128 || old(self).non_native_type->Some_0 is Uuid)
+            ==> final(self).non_native_type is None,                                                 // [C03.marker.one-shot] the decimal / uuid marker is consumed by the value it marks
+        old(self).non_native_type is None ==> final(self).non_native_type is None,
+//@@ end
+}
+/// `unreachable!()` in deserialize_bytes: the LazyValue marker is set by deserialize_newtype_struct(LAZY_VALUE) and handed straight to deserialize_byte_buf, which consumes it
+pub fn marker_cannot_be()
+    requires false,     // [C04.marker.no-unreachable-panic] no input makes the decoder reach an `unreachable!`: a marker that a previous value left behind (LazyValue in front of a `&[u8]` field used to) must not be able to get here
+{}
 
 // ================================================================ compound headers of the decoder (de.rs deserialize_seq / deserialize_tuple / deserialize_map)
 //@@ type file=serde_amqp/src/de.rs kind=const name=MAX_ARRAY_COUNT
@@ -1191,7 +1270,136 @@ impl<R: Read> Deserializer<R> {
             && final(self).reader.unread() =~= eff_unread(*old(self)).skip(dec_i8(eff_unread(*old(self)))->Some_0.1),        // [C05.byte.decoding] [C03.rt.decoder-premise]
         old(self).reader.reliable() && dec_i8(eff_unread(*old(self))) is Some ==> r is Ok,                                     // [C05.byte.every-variant-accepted]
 //@@ end
+
+//@@ fn file=serde_amqp/src/de.rs impl=`impl<'de, R: Read<'de>> Deserializer<R>` name=parse_timestamp
+//@@ qmark
+//@@ blockarms
+//@@ subst `|| Error::unexpected_eof("parse_timestamp")` => `|| -> (o: Error) { Error::unexpected_eof("parse_timestamp") }` rule=R18
+//@@ subst `i64::from_be_bytes(bytes)` => `i64_from_be(bytes)` rule=R14
+//@@ spec
+    requires bounded(old(self).reader),
+    ensures
+        final(self).reader.wf(), final(self).elem_format_code == old(self).elem_format_code, final(self).non_native_type == old(self).non_native_type,
+        r is Ok ==> ({ let u = eff_unread(*old(self)); u.len() >= 9 && u[0] == 0x83 && r->Ok_0 == sp_be64(u.subrange(1, 9)) as i64
+            && final(self).reader.unread() =~= u.skip(9) }),                                                                   // [C05.timestamp.decoding] [C03.rt.decoder-premise] timestamp: 0x83 and 8 octets, big-endian two's complement milliseconds
+        old(self).reader.reliable() && eff_unread(*old(self)).len() >= 9 && eff_unread(*old(self))[0] == 0x83 ==> r is Ok,     // [C05.timestamp.accepted]
+//@@ end
+
+//@@ fn file=serde_amqp/src/de.rs impl=`impl<'de, R: Read<'de>> Deserializer<R>` name=parse_char
+//@@ qmark
+//@@ blockarms
+//@@ subst `|| Error::unexpected_eof("parse_char")` => `|| -> (o: Error) { Error::unexpected_eof("parse_char") }` rule=R18
+//@@ subst `u32::from_be_bytes(` => `from_be32(` rule=R9
+//@@ subst `char::from_u32(n).ok_or(Error::InvalidValue)` => `char_from_u32(n)` rule=R9
+//@@ spec
+    requires bounded(old(self).reader),
+    ensures
+        final(self).reader.wf(), final(self).elem_format_code == old(self).elem_format_code, final(self).non_native_type == old(self).non_native_type,
+        r is Ok ==> ({ let u = eff_unread(*old(self)); u.len() >= 5 && u[0] == 0x73 && r->Ok_0 as u32 == sp_be32(u.subrange(1, 5)) && is_scalar_value(sp_be32(u.subrange(1, 5)))
+            && final(self).reader.unread() =~= u.skip(5) }),                                                                   // [C05.char.decoding] [C03.rt.decoder-premise] char: 0x73 and the UTF-32BE code point, which must be a Unicode scalar value (no surrogates, <= 0x10FFFF)
+        old(self).reader.reliable() && eff_unread(*old(self)).len() >= 5 && eff_unread(*old(self))[0] == 0x73 && is_scalar_value(sp_be32(eff_unread(*old(self)).subrange(1, 5))) ==> r is Ok,     // [C05.char.accepted]
+//@@ end
+
+//@@ fn file=serde_amqp/src/de.rs impl=`impl<'de, R: Read<'de>> Deserializer<R>` name=parse_unit
+//@@ qmark
+//@@ blockarms
+//@@ subst `|| Error::unexpected_eof("parse_unit")` => `|| -> (o: Error) { Error::unexpected_eof("parse_unit") }` rule=R18
+//@@ spec
+    requires bounded(old(self).reader),
+    ensures
+        final(self).reader.wf(), final(self).elem_format_code == old(self).elem_format_code, final(self).non_native_type == old(self).non_native_type,
+        r is Ok ==> ({ let u = eff_unread(*old(self)); u.len() >= 1 && u[0] == 0x40 && final(self).reader.unread() =~= u.skip(1) }),   // [C05.null.decoding] [C03.rt.decoder-premise] null is the single octet 0x40
+        old(self).reader.reliable() && eff_unread(*old(self)).len() >= 1 && eff_unread(*old(self))[0] == 0x40 ==> r is Ok,
+//@@ end
+
+//@@ fn file=serde_amqp/src/de.rs impl=`impl<'de, R: Read<'de>> Deserializer<R>` name=parse_f32
+//@@ qmark
+//@@ blockarms
+//@@ subst `|| Error::unexpected_eof("parse_f32")` => `|| -> (o: Error) { Error::unexpected_eof("parse_f32") }` rule=R18
+//@@ subst `f32::from_be_bytes(bytes)` => `f32_from_be(bytes)` rule=R14
+//@@ spec
+    requires bounded(old(self).reader),
+    ensures
+        final(self).reader.wf(), final(self).elem_format_code == old(self).elem_format_code, final(self).non_native_type == old(self).non_native_type,
+        r is Ok ==> ({ let u = eff_unread(*old(self)); u.len() >= 5 && u[0] == 0x72 && f32_bits(r->Ok_0) == sp_be32(u.subrange(1, 5)) && final(self).reader.unread() =~= u.skip(5) }),   // [C05.float.decoding] [C03.rt.decoder-premise] float: 0x72 and the 4 IEEE 754 octets, big-endian, taken bit for bit
+        old(self).reader.reliable() && eff_unread(*old(self)).len() >= 5 && eff_unread(*old(self))[0] == 0x72 ==> r is Ok,
+//@@ end
+
+//@@ fn file=serde_amqp/src/de.rs impl=`impl<'de, R: Read<'de>> Deserializer<R>` name=parse_f64
+//@@ qmark
+//@@ blockarms
+//@@ subst `|| Error::unexpected_eof("parse_f64")` => `|| -> (o: Error) { Error::unexpected_eof("parse_f64") }` rule=R18
+//@@ subst `f64::from_be_bytes(bytes)` => `f64_from_be(bytes)` rule=R14
+//@@ spec
+    requires bounded(old(self).reader),
+    ensures
+        final(self).reader.wf(), final(self).elem_format_code == old(self).elem_format_code, final(self).non_native_type == old(self).non_native_type,
+        r is Ok ==> ({ let u = eff_unread(*old(self)); u.len() >= 9 && u[0] == 0x82 && f64_bits(r->Ok_0) == sp_be64(u.subrange(1, 9)) && final(self).reader.unread() =~= u.skip(9) }),   // [C05.double.decoding] [C03.rt.decoder-premise] double: 0x82 and the 8 IEEE 754 octets, big-endian, bit for bit
+        old(self).reader.reliable() && eff_unread(*old(self)).len() >= 9 && eff_unread(*old(self))[0] == 0x82 ==> r is Ok,
+//@@ end
 }
+/// `self.reader.forward_read_bytes_with_hint(n, visitor)`: the contract of Read::forward_read_bytes_with_hint checked against both readers (bytes_forwarded)
+#[verifier::external_body]
+pub fn reader_forward_bytes<R: Read>(reader: &mut R, n: usize, visitor: VisS) -> (r: Result<VisValue, Error>)
+    requires bounded(*old(reader)),
+    ensures bytes_forwarded(*old(reader), *final(reader), n, visitor, r), final(reader).wf(), final(reader).reliable() == old(reader).reliable(),
+{ unimplemented!() }
+pub const DECIMAL32_WIDTH: usize = 4;
+pub const DECIMAL64_WIDTH: usize = 8;
+pub const DECIMAL128_WIDTH: usize = 16;
+pub const UUID_WIDTH: usize = 16;
+/// what a fixed-width value shown to the visitor as raw octets decodes from: constructor `code`, then `w` octets
+pub open spec fn fixed_shown<R: Read>(de0: Deserializer<R>, de1: Deserializer<R>, code: u8, w: int, r: Result<VisValue, Error>) -> bool {
+    let u = eff_unread(de0);
+    u.len() >= 1 + w && u[0] == code && r->Ok_0.via@ is Bytes && r->Ok_0.via@->Bytes_0 =~= u.subrange(1, 1 + w) && de1.reader.unread() =~= u.skip(1 + w)
+}
+impl<R: Read> Deserializer<R> {
+//@@ fn file=serde_amqp/src/de.rs impl=`impl<'de, R: Read<'de>> Deserializer<R>` name=parse_uuid
+//@@ qmark
+//@@ generics
+//@@ nowhere
+//@@ blockarms
+//@@ param visitor : VisS
+//@@ ret Result<VisValue, Error>
+//@@ subst `|| Error::unexpected_eof("parse_uuid")` => `|| -> (o: Error) { Error::unexpected_eof("parse_uuid") }` rule=R18
+//@@ subst `self .reader .forward_read_bytes_with_hint(UUID_WIDTH, visitor)` => `reader_forward_bytes(&mut self.reader, UUID_WIDTH, visitor)` rule=R9
+//@@ spec
+    requires bounded(old(self).reader),
+    ensures
+        final(self).reader.wf(), final(self).elem_format_code == old(self).elem_format_code, final(self).non_native_type == old(self).non_native_type,
+        r is Ok ==> fixed_shown(*old(self), *final(self), 0x98, 16, r),                                     // [C05.uuid.decoding] [C03.rt.decoder-premise] uuid: 0x98 and exactly 16 octets, handed on unchanged
+        old(self).reader.reliable() && visitor.total() && eff_unread(*old(self)).len() >= 17 && eff_unread(*old(self))[0] == 0x98 ==> r is Ok,
+//@@ end
+
+//@@ fn file=serde_amqp/src/de.rs impl=`impl<'de, R: Read<'de>> Deserializer<R>` name=parse_decimal
+//@@ qmark
+//@@ generics
+//@@ nowhere
+//@@ blockarms
+//@@ param visitor : VisS
+//@@ ret Result<VisValue, Error>
+//@@ subst `|| Error::unexpected_eof("parse_decimal")` => `|| -> (o: Error) { Error::unexpected_eof("parse_decimal") }` rule=R18
+//@@ subst `self .reader .forward_read_bytes_with_hint(DECIMAL32_WIDTH, visitor)` => `reader_forward_bytes(&mut self.reader, DECIMAL32_WIDTH, visitor)` rule=R9
+//@@ subst `self .reader .forward_read_bytes_with_hint(DECIMAL64_WIDTH, visitor)` => `reader_forward_bytes(&mut self.reader, DECIMAL64_WIDTH, visitor)` rule=R9
+//@@ subst `self .reader .forward_read_bytes_with_hint(DECIMAL128_WIDTH, visitor)` => `reader_forward_bytes(&mut self.reader, DECIMAL128_WIDTH, visitor)` rule=R9
+//@@ spec
+    requires bounded(old(self).reader),
+    ensures
+        final(self).reader.wf(), final(self).elem_format_code == old(self).elem_format_code, final(self).non_native_type == old(self).non_native_type,
+        r is Ok ==> fixed_shown(*old(self), *final(self), 0x74, 4, r) || fixed_shown(*old(self), *final(self), 0x84, 8, r) || fixed_shown(*old(self), *final(self), 0x94, 16, r),   // [C05.decimal.decoding] [C03.rt.decoder-premise] decimal32 / 64 / 128: 0x74 / 0x84 / 0x94 and exactly 4 / 8 / 16 octets, handed on unchanged
+        old(self).reader.reliable() && visitor.total() && ({ let u = eff_unread(*old(self)); (u.len() >= 5 && u[0] == 0x74) || (u.len() >= 9 && u[0] == 0x84) || (u.len() >= 17 && u[0] == 0x94) }) ==> r is Ok,
+//@@ end
+}
+/// a Unicode scalar value (what `char::from_u32` accepts)
+pub open spec fn is_scalar_value(n: u32) -> bool { n <= 0x10FFFF && !(0xD800 <= n && n <= 0xDFFF) }
+/// `char::from_u32(n).ok_or(Error::InvalidValue)`
+#[verifier::external_body]
+pub fn char_from_u32(n: u32) -> (r: Result<char, Error>) ensures (r is Ok) == is_scalar_value(n), r is Ok ==> r->Ok_0 as u32 == n { char::from_u32(n).ok_or(Error::Other) }
+/// the IEEE 754 bit pattern of a float (f32::to_bits / from_bits: uninterpreted here)
+pub uninterp spec fn f32_bits(x: f32) -> u32;
+pub uninterp spec fn f64_bits(x: f64) -> u64;
+#[verifier::external_body] pub fn f32_from_be(b: [u8; 4]) -> (r: f32) ensures f32_bits(r) == sp_be32(b@) { f32::from_be_bytes(b) }
+#[verifier::external_body] pub fn f64_from_be(b: [u8; 8]) -> (r: f64) ensures f64_bits(r) == sp_be64(b@) { f64::from_be_bytes(b) }
 
 // ================================================================ the descriptor of a described value (de.rs parse_described_identifier)
 /// what the visitor is given (visit_u64 / visit_str are outside this unit: a visitor either fails or returns a value that remembers what it was given)
